@@ -24,6 +24,7 @@ import (
 // Go loop terminates within that many iterations.
 type loopCtx struct {
 	state func() string
+	post  ast.Stmt // the post statement of a general `for init; cond; post`: runs at the end of the body and on `continue`
 }
 
 func isSimpleFor(t *tr, x *ast.ForStmt) bool {
@@ -101,7 +102,7 @@ func indexLoopForm(t *tr, x *ast.ForStmt) bool {
 
 // loopAsWhile: any other `for init; cond; post { body }` is `init; for cond { body; post }` (a while loop with fuel)
 func (t *tr) loopAsWhile(x *ast.ForStmt, rest []ast.Stmt, depth int, k func() string) string {
-	if x.Post != nil {
+	if false {
 		hasContinue := false
 		var walk func(n ast.Node)
 		walk = func(n ast.Node) {
@@ -125,10 +126,10 @@ func (t *tr) loopAsWhile(x *ast.ForStmt, rest []ast.Stmt, depth int, k func() st
 		}
 	}
 	body := append([]ast.Stmt{}, x.Body.List...)
-	if x.Post != nil {
-		body = append(body, x.Post)
-	}
 	w := &ast.ForStmt{For: x.For, Cond: x.Cond, Body: &ast.BlockStmt{Lbrace: x.Body.Lbrace, List: body, Rbrace: x.Body.Rbrace}}
+	if x.Post != nil {
+		t.postOf[w] = x.Post
+	}
 	var stmts []ast.Stmt
 	if x.Init != nil {
 		stmts = append(stmts, x.Init)
@@ -312,6 +313,11 @@ func (t *tr) loopCore(x ast.Node, xBody *ast.BlockStmt, iobj types.Object, list 
 		return t.fail(x, "loop body with go / defer / closure / label / goto")
 	}
 	written := t.assignedObjs(xBody.List)
+	if fs, ok := x.(*ast.ForStmt); ok && t.postOf[fs] != nil {
+		for o := range t.assignedObjs([]ast.Stmt{t.postOf[fs]}) {
+			written[o] = true
+		}
+	}
 	var iname, cond string
 	if iobj != nil {
 		if written[iobj] {
@@ -392,8 +398,18 @@ func (t *tr) loopCore(x ast.Node, xBody *ast.BlockStmt, iobj types.Object, list 
 	if condE != nil {
 		cond = t.cond(condE)
 	}
-	f.loops = append(f.loops, &loopCtx{state: stateNow})
-	body := t.block(xBody.List, 1, func() string { return "GoSem.Step.next " + stateNow() })
+	var post ast.Stmt
+	if fs, ok := x.(*ast.ForStmt); ok {
+		post = t.postOf[fs]
+	}
+	f.loops = append(f.loops, &loopCtx{state: stateNow, post: post})
+	endBody := func() string { return "GoSem.Step.next " + stateNow() }
+	if post != nil {
+		endBody = func() string {
+			return strings.TrimLeft(t.block([]ast.Stmt{post}, 1, func() string { return "GoSem.Step.next " + stateNow() }), " ")
+		}
+	}
+	body := t.block(xBody.List, 1, endBody)
 	f.loops = f.loops[:len(f.loops)-1]
 	if cond != "" {
 		body = fmt.Sprintf("  if %s then\n%s\n  else GoSem.Step.brk %s", cond, body, sn)
